@@ -592,6 +592,18 @@ def c01(tier):
                 g.append(runn(mixed + mixed[:5] + [list(sentinel().encode())]))
                 groups.append(g)
     conform(rep, 'C01', groups, profiles=('checked', 'release'), maxlen=1500)
+    # whole recordings as single reader runs in both profiles (thorough)
+    if tier == 'thorough':
+        g2 = []
+        for name in ('squitters.txt', 'sbs2.txt', 'raw1.txt', 'raw2.txt', 'df0-df16.txt', 'df24.txt', 'sbs1.txt'):
+            try:
+                lines = recorded_lines(name, 12000)
+            except OSError:
+                continue
+            for opts in (['-d', '100000'], ['-U', '-R', '-d', '100000'], ['-c', '-f', '17', '-d', '100000']):
+                for i in range(0, len(lines), 3000):
+                    g2.append([reset(opts), runn(lines[i:i + 3000])])
+        conform(rep, 'C01', g2, profiles=('checked', 'release'), prefix='rec', maxlen=4)
     # (b) the real CLI binaries on files of hostile lines each followed by a sentinel
     events = []
     for prof in ('dev', 'release'):
@@ -1011,6 +1023,16 @@ def c11(tier):
             else:
                 g.append(run1(rng.choice(pool)))
         groups.append(g)
+    # recorded traffic, line by line (every per-frame predicate applies); raw1.txt starts with non-UTF-8 noise
+    for name, nq, nt in (('squitters.txt', 1500, 30000), ('sbs2.txt', 500, 8000), ('raw1.txt', 300, 3000), ('df0-df16.txt', 300, 3000),
+                         ('df24.txt', 100, 1000), ('sbs1.txt', 100, 1000), ('raw2.txt', 200, 3000)):
+        try:
+            lines = recorded_lines(name, nq if tier == 'quick' else nt, start=rng.randrange(0, 50))
+        except OSError:
+            continue
+        for k, opts in enumerate(OPTSETS[:2] if tier == 'quick' else OPTSETS):
+            for i in range(0, len(lines), 1500):
+                groups.append([reset(opts)] + [run1(l) for l in lines[i:i + 1500]])
     # segmentation invariance: one line per reader run vs the whole history in one run
     nseg = 10 if tier == 'quick' else 300
     for h in range(nseg):
